@@ -87,6 +87,7 @@ def step (st : State) (toks : List String) : State × String :=
     | some _, some k =>
       (st, showCall (getHandler st.reg k) ++ "\t#spec " ++ showCall (registered st.evs k))
     | _, _ => (st, "bad-op")
+  | ["wide", offset, delta] => (st, s!"wide seen={offset} {delta}")     -- the specification: the handler observes the value sent
   | ["proxy", tmo, _size, fault, _budget] =>
     -- C14 on the real transport: the reply is lost while its body is in flight (the handler has run).  A link that goes quiet
     -- ends in the client's timeout (RpcNet: the `timeout` step at `tau`), a connection that is torn down in a connection error
